@@ -11,7 +11,8 @@ import numpy as np
 
 def _load_test_matrices():
     import ast
-    src = open("/repo/test/permanents/test_permanents.py").read()
+    import os
+    src = open(os.path.join(os.environ.get("SYMX_REPO", "/repo"), "test/permanents/test_permanents.py")).read()
     tree = ast.parse(src)
     out = {}
     for node in tree.body:
